@@ -18,6 +18,7 @@ package main
 import (
 	"bytes"
 	"encoding/hex"
+	"flag"
 	"fmt"
 	"os"
 	"sort"
@@ -65,6 +66,24 @@ type Job struct {
 	Thorough bool     `json:"thorough"`
 	FullD2   bool     `json:"full_d2"`
 	Only     string   `json:"only,omitempty"` // replay of one variant: hex of the variant bytes
+	Deadline int64    `json:"deadline,omitempty"`
+}
+
+var deadlineMs int64
+
+func late() bool { return deadlineMs > 0 && time.Now().UnixMilli() > deadlineMs }
+
+func jobDeadline(r *mc.Run, quick, thorough time.Duration) int64 {
+	b := quick
+	if !r.Quick() {
+		b = thorough
+	}
+	if f := flag.Lookup("budget"); f != nil {
+		if d, err := time.ParseDuration(f.Value.String()); err == nil && d > 0 {
+			b = d
+		}
+	}
+	return time.Now().Add(b).UnixMilli()
 }
 
 // Hit is a variant (or another probe) that EXECUTED although it must not.
@@ -102,6 +121,7 @@ type Result struct {
 	Notes       []string              `json:"notes,omitempty"`
 	Samples     []any                 `json:"samples,omitempty"`
 	Err         string                `json:"err,omitempty"`
+	Partial     bool                  `json:"partial,omitempty"`
 	CPUms       int64                 `json:"cpu_ms"`
 }
 
@@ -182,10 +202,15 @@ func runReplay(j Job) (res Result) {
 		}
 	}
 	xs := txlab.Xforms(tree, opts)
-	second := txlab.Representatives(xs)
+	// depth 2 composes over the quick-size alphabet (the thorough alphabet only adds more field
+	// permutations): one representative per class, or — FullD2 — every ordered pair
+	optsQ := opts
+	optsQ.Thorough = false
+	xq := txlab.Xforms(tree, optsQ)
+	second := txlab.Representatives(xq)
 	first := second
 	if j.FullD2 {
-		first, second = xs, xs
+		first, second = xq, xq
 	}
 	d1, _, gerr := txlab.Generate(b.Raw, xs, nil)
 	if gerr != nil {
@@ -252,6 +277,10 @@ func runReplay(j Job) (res Result) {
 		return
 	}
 	for _, v := range d1 {
+		if late() {
+			res.Partial = true
+			break
+		}
 		ex, diff, e := probe(l, [][]byte{b.Raw, v.Raw}, alone.State)
 		record("same-block", v, 1, "block k behind the original", ex, diff, e)
 	}
@@ -276,11 +305,19 @@ func runReplay(j Job) (res Result) {
 		ex, diff, et := probe(l, [][]byte{b.Raw}, empty.State)
 		record("replay", txlab.Variant{Classes: []string{"identical-bytes"}, Desc: "the identical bytes", Raw: b.Raw}, 0, where, ex, diff, et)
 		for _, v := range d1 {
+			if late() {
+				res.Partial = true
+				break
+			}
 			ex, diff, et := probe(l, [][]byte{v.Raw}, empty.State)
 			record("replay", v, 1, where, ex, diff, et)
 		}
-		if step == 1 || j.Thorough {
+		if step == 1 || (j.Thorough && !j.FullD2) {
 			for _, v := range d2 {
+				if late() {
+					res.Partial = true
+					break
+				}
 				ex, diff, et := probe(l, [][]byte{v.Raw}, empty.State)
 				record("replay", v, 2, where, ex, diff, et)
 			}
@@ -373,6 +410,10 @@ func runLongWindow(j Job) (res Result) {
 	tree, _ := txlab.Parse(base, txlab.TxSchema, "")
 	d1, _, _ := txlab.Generate(base, txlab.Representatives(txlab.Xforms(tree, txlab.XformOpts{Kind: txlab.KBLS})), nil)
 	for l.C.Height() < 1+fsm.BlockAcceptanceRange {
+		if late() {
+			res.Partial = true
+			return
+		}
 		if _, e := l.C.Step(env.BlockSpec{Proposer: 0}); e != nil {
 			res.Err = fmt.Sprintf("height %d: %v", l.C.Height(), e)
 			return
@@ -522,6 +563,7 @@ func runJob(j Job) (res Result) {
 		res.CPUms = time.Since(start).Milliseconds()
 	}()
 	crypto.SignatureCache.Reset()
+	deadlineMs = j.Deadline
 	switch j.Part {
 	case "replay":
 		return runReplay(j)
@@ -587,6 +629,8 @@ func main() {
 	for i, b := range bases {
 		jobs = append(jobs, Job{Part: "replay", Base: b, Thorough: !r.Quick(), FullD2: !r.Quick() && i < 5})
 	}
+	dl := jobDeadline(r, 85*time.Second, 25*time.Minute)
+	defer func() { _ = dl }()
 	jobs = append(jobs, Job{Part: "window"}, Job{Part: "nonce"})
 	crossBases := bases[:1]
 	if !r.Quick() {
@@ -598,6 +642,9 @@ func main() {
 	if !r.Quick() {
 		jobs = append([]Job{{Part: "longwindow"}}, jobs...)
 	}
+	for i := range jobs {
+		jobs[i].Deadline = dl
+	}
 	results, crashed := mc.Map[Job, Result](mc.NewProcPool(0), jobs, r.Expired)
 
 	tot := newResult()
@@ -605,7 +652,7 @@ func main() {
 	var hits []Hit
 	perBase := map[string]any{}
 	var cpu int64
-	done := 0
+	done, partial := 0, 0
 	for i, res := range results {
 		if crashed[i] {
 			r.Violation("C06:worker-crash:"+jobs[i].Part, fmt.Sprintf("worker died twice on job %+v", jobs[i]), jobs[i])
@@ -618,6 +665,10 @@ func main() {
 		cpu += res.CPUms
 		if res.Err != "" {
 			r.Note("job %s %s: %s", jobs[i].Part, jobs[i].Base, res.Err)
+			r.Exhaustive = false
+		}
+		if res.Partial {
+			partial++
 			r.Exhaustive = false
 		}
 		for _, n := range res.Notes {
@@ -655,8 +706,9 @@ func main() {
 			r.AddSample(s)
 		}
 	}
-	if done < len(jobs) {
-		r.Note("stopped after %d of %d jobs (deadline)", done, len(jobs))
+	if done < len(jobs) || partial > 0 {
+		r.Expired()
+		r.Note("deadline: %d of %d jobs ran, %d of them only partially", done, len(jobs), partial)
 	}
 	// violations: one signature per transformation class
 	for _, h := range hits {
@@ -740,6 +792,7 @@ func main() {
 		"replaying_classes":   keys(execD1),
 		"jobs":                len(jobs),
 		"jobs_done":           done,
+		"jobs_partial":        partial,
 		"worker_cpu_s":        float64(cpu) / 1000,
 		"bases":               len(bases),
 		"hits_written_out":    len(hits),
